@@ -326,13 +326,14 @@ impl PScenario {
             n = rng.range(3, 64);
         }
         // rarely: a long input (up to 10^6 in thorough), where chunk sizes pass 2^16
-        let long = rng.below(4000) == 0;
+        let long = rng.below(2500) == 0;
         if long {
-            n = match tier {
-                Tier::Quick => rng.range(140_000, 400_000),
-                Tier::Thorough => rng.range(140_000, 1_000_000),
+            let hi: f64 = match tier {
+                Tier::Quick => 400_000.0,
+                Tier::Thorough => 1_000_000.0,
             };
-            st.bump("probe.long_input_ge_140k");
+            n = (10_000.0 * (hi / 10_000.0).powf(rng.f())) as usize;
+            st.bump("probe.long_input_ge_10k");
         }
         let (d, m) = gen::scalar_c01(&mut rng, n);
         let mut cfg = gen_cfg(&mut rng, n, RProp::C02);
